@@ -157,7 +157,16 @@ def run_case(case):
                 Ls.append(2 * math.pi if rng.random() < 0.5 else float(rng.uniform(0.1, 2 * math.pi)))
             else:
                 Ls.append(math.pi if rng.random() < 0.5 else float(rng.uniform(0.1, math.pi)))
-        m = getattr(pf, cls)(*(n + Ls))
+        # the same numbers handed over as python ints / numpy integer or float32-free scalar types where they are whole numbers
+        style = str(rng.choice(['plain', 'plain', 'int-L', 'numpy-scalars']))
+        nargs, largs = list(n), list(Ls)
+        if style == 'int-L':
+            largs = [int(x) if float(x).is_integer() else x for x in Ls]
+        elif style == 'numpy-scalars':
+            nargs = [rng.choice([np.int64, np.int32, np.intp])(x) for x in n]
+            largs = [np.int64(x) if float(x).is_integer() and rng.random() < 0.7 else np.float64(x) for x in Ls]
+        cov['NL_argument_style:' + style] = 1
+        m = getattr(pf, cls)(*(nargs + largs))
         faces = [np.arange(n[k] + 1) * (Ls[k] / n[k]) for k in range(nd)]
         bad = check_mesh(m, cls, faces, 'NL')
         # (N, L) form must equal the face-position form on equispaced faces
@@ -212,6 +221,9 @@ def plan(tier, seed):
 def floors(agg, tier):
     need = 30 if tier == 'quick' else 1000
     out = []
+    for st in ('plain', 'int-L', 'numpy-scalars'):
+        if agg['cov'].get('NL_argument_style:' + st, 0) < 30:
+            out.append('NL_argument_style:%s < 30' % st)
     for geo in ('nano', 'jitter', 'mega', 'int'):
         if agg['cov'].get('geo:' + geo, 0) < 20:
             out.append('geo:%s < 20' % geo)
